@@ -107,7 +107,12 @@ var afterwards = []string{
 
 func genDecode(t *rapid.T) strCase {
 	var s string
-	switch h.Pick(t, "kind", 6, 6, 1, 1, 1) {
+	switch h.Pick(t, "kind", 6, 6, 1, 1, 1, 1, 1) {
+	case 5: // non-ASCII runes in the prefix, checksum correct for its bytes (or its truncated runes)
+		return strCase{S: h.S(bgen.NonASCIIPrefix(t))}
+	case 6: // prefix in one case, data part in the other
+		v, hrp, _ := bgen.Valid(t, true, false)
+		return strCase{S: h.S(bgen.SplitCase(v, len(hrp), rapid.Bool().Draw(t, "upfx")))}
 	case 3: // well-formed, but the checksum belongs to another constant (Bech32m, 0, ...)
 		s = bgen.WrongConst(t)
 	case 4: // a human-readable part that leaves the checksum register at 0 (or 1)
@@ -145,7 +150,7 @@ func TestDecode(t *testing.T) {
 	h.Run(t, h.Sub[strCase]{
 		Prop: "C04", Name: "decode", N: 150000,
 		Gen: genDecode, Check: checkDecode, Require: req,
-		Rule: "reference-encoded strings over arbitrary 5-bit symbols (every padding pattern), well-formed strings whose checksum belongs to another constant (Bech32m, 0, all ones, ...), human-readable parts constructed to leave the checksum register at 0 or 1, case variants, 0-3 edits with hostile replacement bytes, random bytes; error values re-inspected after 13 further rejected calls; non-trivial = accepted by the reference, or rejected at the checksum/padding stage, or containing a non-ASCII byte; distinct by string",
+		Rule: "reference-encoded strings over arbitrary 5-bit symbols (every padding pattern), well-formed strings whose checksum belongs to another constant (Bech32m, 0, all ones, ...), human-readable parts constructed to leave the checksum register at 0 or 1, prefixes containing non-ASCII runes with a checksum that is correct for their bytes, prefix and data part in different cases, case variants, 0-3 edits with hostile replacement bytes, random bytes; error values re-inspected after 13 further rejected calls; non-trivial = accepted by the reference, or rejected at the checksum/padding stage, or containing a non-ASCII byte; distinct by string",
 	})
 }
 
